@@ -76,6 +76,43 @@ def run(world, rep, tier, only=None):
     rep.ob("C07.a", site(cq, "usage computed before the quota files are written"), bool(cu) and bool(wq) and
            all(cq.dominated_by(w_, cu) for w_ in wq), "quota_compute_usage dominates quota_write_inode")
 
+    # ------------------------------------------------------------------ C07.e blocks taken out of the map for a computation are put back
+    # main() un-marks the listed bad blocks to compute s_overhead_clusters; until they are marked again they look
+    # free to everything that allocates (root directory, lost+found, the bad-block inode's own indirect block).
+    unm = [n for n in calls_to(main, "ext2fs_unmark_block_bitmap2", "ext2fs_unmark_block_bitmap_range2")
+           if (T.path(arg(n, 0)) or "").endswith("block_map")]
+    rem = [n for n in calls_to(main, "ext2fs_mark_block_bitmap2", "ext2fs_mark_block_bitmap_range2")
+           if (T.path(arg(n, 0)) or "").endswith("block_map")]
+    # the re-marking is a loop over the same list: reaching that loop is what the paths must do (a path that
+    # skips its body would mean the list became empty in between), and tests of the list pointer stay true
+    rem_heads = []
+    for r_ in rem:
+        hb_ = loop_head(main, r_)
+        if hb_ is not None:
+            rem_heads.append(main.node(hb_, 0))
+    listvars = set()
+    for u_ in unm:
+        hb_ = loop_head(main, u_)
+        if hb_ is not None:
+            for (t_, a_) in control_lits(main, main.node(hb_, 0)):
+                if t_ and T.strip(a_).get("k") == "v":
+                    listvars.add(T.path(a_))
+    same_list = {}
+    for bid in main.blocks:
+        lit = main.literal(bid)
+        if lit and T.strip(lit[0]).get("k") == "v" and T.path(lit[0]) in listvars:
+            same_list[main.block_end(bid)] = lit[1]
+
+    def list_still_there(n, si, m, _s=same_list):
+        return not (n in _s and ((si == 0) != _s[n]))
+    for i, u in enumerate(unm):
+        r = main.reach(main.after(u), avoid=rem + rem_heads, edge_ok=list_still_there)
+        late = [n for n in main.call_nodes() if n in r and allocates(n) and not is_call(n, "ext2fs_close_free", "ext2fs_close")]
+        rep.ob("C07.e", site(main, "temporarily un-marked blocks are marked again before anything allocates#%d" % i), not late,
+               "allocating calls reachable after `%s` without passing a mark of fs->block_map: %s" %
+               (u.text()[:40], [(n.line, (T.call_names(n.ev["x"]) or ["?"])[0]) for n in late[:4]]))
+    rep.floor("C07.e un-mark of fs->block_map in main", len(unm), 1)
+
     # ------------------------------------------------------------------ C07.b feature -> creator wiring
     CREATORS = [
         ("resize_inode", ("ext2fs_has_feature_resize_inode",), ("ext2fs_create_resize_inode",)),
